@@ -40,7 +40,23 @@ def read_after(w: GuardWalk, elt: ast.AST, want: str, after: int, ret_order: int
     return False
 
 
+def _possible(f, term: str, isnone: bool) -> bool:
+    """the guard can hold with `term is None` = isnone, for some valuation of its other atoms"""
+    from ..guards import prop_assignments, prop_truth
+    keys = {f'{term} is None': isnone, f'{term} is not None': not isnone}
+    for asg in prop_assignments(f):
+        if all(asg.get(k, v) == v for k, v in keys.items()) and prop_truth(f, asg):
+            return True
+    return False
+
+
+def calls_to(w, text: str):
+    """call events whose callee, locals expanded, is `text`"""
+    return [e for e in w.events if e.kind == 'call' and src(w.expand(e.node.func)) == text]
+
+
 def run(index: RepoIndex, rep) -> None:
+    from ..view import view
     rep.rule('C20.R1', 'GymEnvironment.step/reset: index -> actions[i] -> outer_env.step once; '
              'observation read after the call; reward/flag of that call', floor=8)
     rep.rule('C20.R2', 'GymStateWrapper returns env.state, forwards the observation in info, '
@@ -75,9 +91,9 @@ def run(index: RepoIndex, rep) -> None:
     m = ge.methods.get('step')
     if m is None:
         raise AnalysisError('anchor vanished: GymEnvironment.step')
-    w = walk_function(m.node)
+    w = view(index, m)[1]
     ap = m.node.args.args[1].arg
-    steps = [e for e in w.events if e.kind == 'call' and src(e.node.func) == 'self.outer_env.step']
+    steps = calls_to(w, 'self.outer_env.step')
     rep.check(len(steps) == 1 and not steps[0].loops, 'C20.R1', GYM, 'GymEnvironment.step',
               m.node.lineno, '; '.join(src(s.node) for s in steps),
               f'step calls outer_env.step {len(steps)} times', 'one step call')
@@ -106,8 +122,8 @@ def run(index: RepoIndex, rep) -> None:
     m = ge.methods.get('reset')
     if m is None:
         raise AnalysisError('anchor vanished: GymEnvironment.reset')
-    w = walk_function(m.node)
-    rc = [e for e in w.events if e.kind == 'call' and src(e.node.func) == 'self.outer_env.reset']
+    w = view(index, m)[1]
+    rc = calls_to(w, 'self.outer_env.reset')
     rets = [e for e in w.events if e.kind == 'return' and e.value is not None]
     rep.check(len(rc) == 1 and bool(rets) and all(
         read_after(w, r.value, 'self.observation', rc[0].order, r.order) for r in rets),
@@ -128,9 +144,9 @@ def run(index: RepoIndex, rep) -> None:
     m = sw.methods.get('step')
     if m is None:
         raise AnalysisError('anchor vanished: GymStateWrapper.step')
-    w = walk_function(m.node)
+    w = view(index, m)[1]
     ap = m.node.args.args[1].arg
-    steps = [e for e in w.events if e.kind == 'call' and src(e.node.func) == 'self.env.step']
+    steps = calls_to(w, 'self.env.step')
     rep.check(len(steps) == 1 and [src(a) for a in steps[0].node.args] == [ap], 'C20.R2', GYM,
               'GymStateWrapper.step', m.node.lineno, '; '.join(src(s.node) for s in steps),
               'the wrapper does not call env.step(action) exactly once', 'one step call')
@@ -185,16 +201,34 @@ def run(index: RepoIndex, rep) -> None:
     m = ge.methods.get('__init__')
     if m is None:
         raise AnalysisError('anchor vanished: GymEnvironment.__init__')
-    w = walk_function(m.node)
+    w = view(index, m, keep=('outer_space_to_gym_space',))[1]
     op = m.node.args.args[1].arg
     st = {src(e.target): e for e in w.events if e.kind == 'attrstore'}
+    from ..guards import none_truth, strip_iter
     for attr, rattr in (('self.state_space', 'state_representation'),
                         ('self.observation_space', 'observation_representation')):
         evs = [e for e in w.events if e.kind == 'attrstore' and src(e.target) == attr]
-        vals = {src(e.value) for e in evs}
-        want = {f'outer_space_to_gym_space({op}.{rattr}.space)', 'None'}
-        rep.check(vals == want, 'C20.R4', GYM, 'GymEnvironment.__init__', m.node.lineno,
-                  '; '.join(sorted(vals)),
+        term = f'{op}.{rattr}'
+        want = {True: 'None', False: f'outer_space_to_gym_space({term}.space)'}
+        got = {}
+        ok = bool(evs)
+        for e in evs:
+            t = none_truth(w.expand_formula(strip_iter(e.guard)), term)
+            if t is None:
+                # the guard also depends on the other representation (paths were split):
+                # judge it on the atoms about this one only
+                from ..guards import prop_atoms
+                f_ = w.expand_formula(strip_iter(e.guard))
+                t = {}
+                for isnone in (True, False):
+                    t[isnone] = _possible(f_, term, isnone)
+            v = src(w.expand(e.value)) if e.value is not None else 'None'
+            for isnone in (True, False):
+                if t[isnone]:
+                    got.setdefault(isnone, set()).add(v)
+        ok = ok and got == {k: {v} for k, v in want.items()}
+        rep.check(ok, 'C20.R4', GYM, 'GymEnvironment.__init__', m.node.lineno,
+                  '; '.join(f'{k}: {sorted(v)}' for k, v in sorted(got.items())),
                   f'{attr} is not derived from {op}.{rattr}.space (or None when absent)',
                   f'init {attr}')
     e = st.get('self.action_space')
@@ -312,7 +346,8 @@ def outer_env_rules(index: RepoIndex, rep, rule: str) -> None:
         m = oc.methods.get(prop)
         if m is None:
             raise AnalysisError(f'anchor vanished: OuterEnv.{prop}')
-        w = walk_function(m.node)
+        from ..view import view
+        w = view(index, m)[1]
         rets = [e for e in w.events if e.kind == 'return' and e.value is not None]
         want = f'self.{rep_attr}.convert(self.inner_env.{inner})'
         rep.check(len(rets) >= 1 and all(src(w.expand(r.value)) == want for r in rets),
@@ -330,8 +365,9 @@ def outer_env_rules(index: RepoIndex, rep, rule: str) -> None:
         m = oc.methods.get(meth)
         if m is None:
             raise AnalysisError(f'anchor vanished: OuterEnv.{meth}')
-        w = walk_function(m.node)
-        calls = [src(e.node) for e in w.events if e.kind == 'call']
+        from ..view import view
+        w = view(index, m)[1]
+        calls = [src(w.expand(e.node)) for e in w.events if e.kind == 'call']
         if want is None:
             p = [a.arg for a in m.node.args.args[1:]]
             want = f'self.inner_env.step({p[0]})' if p else ''
